@@ -40,6 +40,8 @@ GemvOK(r) ==
       ax == MatVec(M, rr, cc, r.x)
   IN /\ Len(r.out) = rr
      /\ \A i \in 1..rr : r.out[i] = CAdd(CMul(r.alpha, ax[i]), CMul(r.beta, r.y[i]))
+     /\ r.gapsok = 1       \* x, y, out are the LOGICAL vectors (increments incx, incy as in the BLAS); the elements of the
+                          \* array y between the strided entries are untouched
 
 \* B, C dense column-major lists of columns: B[j][i]
 GemmOK(r) ==
